@@ -155,22 +155,28 @@ extern "C" void h_rem() {
 #if defined(KF_ONLY_C04_natural_rem) || defined(REM_WIDE)
     vf_assume(big_nat && !zero && !ovf);
 #endif
+    // The reference remainder is formed BEFORE the engine runs: once evaluateExpression is inlined, its `divisor == 0 / -1` tests are
+    // tests on this harness' own operand variable, CBMC's symex re-versions that variable at the join (x := c in the taken branch), and a
+    // reference formed afterwards would no longer have syntactically the engine's operands (no back end proves two 64-bit remainders
+    // equivalent otherwise).  x % -1 is 0 for every x.
+    i128 v = 0;
+    if (!(zero || ovf)) {
+#ifdef REM_WIDE                                           // Natural operands >= 2^63: remainder on the magnitudes
+        v = ref_rem(x, y);
+#else                                                     // both operands inside int64: plain C remainder (the wide case is a separate query)
+        vf_assume(fits_i64(x) && fits_i64(y));
+        v = ((i64)y == -1) ? (i128)0 : (i128)((i64)x % (i64)y);
+#endif
+        vf_assume(fits_i64(v));
+    }
     QE l, r; mk(l, a.k, a.b); mk(r, b.k, b.b);
     TC tc{nullptr, 0};
     bool ok = tc.evaluateExpression(l, r, OP::Remainder);   // x % 0 and INT64_MIN % -1: CBMC's division-by-zero / signed-mod-overflow
                                                             // properties fire inside operator% (the hardware instruction traps)
     if (zero) vf_assert(!ok, 1);                            // no value for a zero divisor
     else if (ovf) vf_assert(!ok || (l.Type == ET::IntegerNumber && l.Value.Number.Integer == 0), 3);   // x % -1 is 0 (or no value), never a trap
-    else vf_assert(ok, 4);
-    if (!(zero || ovf)) {
-        i128 v;
-#ifdef REM_WIDE                                           // Natural operands >= 2^63: remainder on the magnitudes
-        v = ref_rem(x, y);
-#else                                                     // both operands inside int64: plain C remainder (the wide case is a separate query)
-        vf_assume(fits_i64(x) && fits_i64(y));
-        v = (i128)((i64)x % (i64)y);
-#endif
-        vf_assume(fits_i64(v));
+    else {
+        vf_assert(ok, 4);
         vf_assert(l.Type == ET::IntegerNumber && l.Value.Number.Integer == (i64)v, 2);
     }
     vf_witness();
